@@ -111,8 +111,20 @@ def lay(a):
     return a
 
 
+FVCTOR = 'ctor'    # 'labels': FaceVariables are created in the scalar form and filled component by component through the grid's
+                   # documented component labels (fv.rvalue = array, ...) - set by the runner per case
+
+
 def mk_face(m, comps):
     comps = [lay(c) for c in comps]
+    if FVCTOR == 'labels':
+        name = type(m).__name__
+        if name in LABELS:
+            fv = pf.FaceVariable(m, 0.0)
+            for lab, ax in LABELS[name].items():
+                if ax < len(comps):
+                    setattr(fv, lab + 'value', comps[ax])
+            return fv
     while len(comps) < 3:
         comps.append(np.array([]))
     return pf.FaceVariable(m, *comps)
